@@ -249,6 +249,6 @@ def _round6(ctx):
     from rules import arms as A
     with ctx.rule('R01.12', 'no byte is lost in the hand-off: each wake-up of a channel queue reads it until it is empty', floor=2) as r:
         A.drains_until_empty(ctx, r, 'handle_channel_readable:until-empty', 'io_loop::Inner::handle_channel_readable', ['self', 'channel_id'],
-                             'mio_extras::channel::Receiver::try_recv(', other_exits=('io_loop::channel_slots::ChannelSlots::get(self.chan_slots, channel_id) ~ None',))
+                             'mio_extras::channel::Receiver::try_recv(', other_exits=('io_loop::channel_slots::ChannelSlots::get(self.chan_slots, channel_id) ~ None', 'io_loop::channel_slots::ChannelSlots::get_mut(self.chan_slots, channel_id) ~ None'))
         A.drains_until_empty(ctx, r, 'handle_channel0_readable:until-empty', 'io_loop::Inner::handle_channel0_readable', ['self', 'ch0_slot'],
                              'mio_extras::channel::Receiver::try_recv(')
